@@ -1,7 +1,7 @@
 (* C13 — non-vacuity examples, the instantiation of the lock-discipline theorem
    on the generated call graph, and the refutation of the pre-repair lock. *)
 From Coq Require Import ZArith List Bool String Lia.
-From Verif Require Import C13.Model C13.Proofs C13.Threads gen.Gen_C13.
+From Verif Require Import C13.Model C13.Proofs C13.Threads C13.World gen.Gen_C13.
 Import ListNotations.
 Open Scope Z_scope.
 
@@ -173,9 +173,59 @@ Proof. vm_compute. auto. Qed.
 (* what run_case prints for such a run (the rows the harness compares with
    the real threads): one row per scheduled step, then the quiescent state *)
 Example ex_threads_run_case :
-  List.length (run_case (cfg_cap, map ROp thr_pre, thr_progs, [0; 1; 1; 1; 1])) = 7%nat /\
-  nth 1 (run_case (cfg_cap, map ROp thr_pre, thr_progs, [0; 1; 1; 1; 1])) [] = [0; 0; 2; 3; 1; 0; 1; 1; 0; 1; 2].
+  List.length (run_case (cfg_cap, map ROp thr_pre, thr_progs, [0; 1; 1; 1; 1], ([], []))) = 7%nat /\
+  nth 1 (run_case (cfg_cap, map ROp thr_pre, thr_progs, [0; 1; 1; 1; 1], ([], []))) [] = [0; 0; 2; 3; 1; 0; 1; 1; 0; 1; 2].
 Proof. vm_compute. auto. Qed.
+
+(* ---- several lysosomes built from one digesters mapping ----------------- *)
+
+(* two lysosomes built from the same mapping (custom digesters for types 0-3),
+   a third one built in the middle of the history; each gets a sensitive item
+   and digests it (the third one: emergency digest at capacity 2): every
+   on_toxic log holds the object's OWN item, once; the objects number their
+   items independently; the mapping is what it was *)
+Definition cfg_w := mkConfig 4 9 2 true.
+Definition world_ops : list wop :=
+  [ WNew cfg_w; WNew cfg_w;
+    WOn 0 (ROp (Atomic (IngestSensitive (Ok [])))); WOn 0 (ROp (Atomic (DigestOp None)));
+    WOn 1 (ROp (Atomic (Ingest Misfolded 0 (Ok [1])))); WOn 1 (ROp (Atomic (IngestSensitive (Ok []))));
+    WAdv 1;
+    WNew cfg_cap;
+    WOn 1 (ROp (Atomic (DigestOp None)));
+    WOn 2 (ROp (Atomic (IngestSensitive (Ok [])))); WOn 2 (ROp (Atomic (Ingest ExpiredCache 0 (Ok []))));
+    WOn 2 (ROp (Atomic (Ingest ExpiredCache 0 (Ok [])))); WOn 5 (ROp (Atomic Autophagy)) ].
+Example ex_world :
+  let w := wrun [0; 1; 2; 3] world_ops in
+  map (fun p => rev (toxlog (c_base (snd p)))) (w_objs w) = [[0]; [1]; [0]] /\
+  map (fun p => n_digested (c_base (snd p))) (w_objs w) = [1; 2; 1] /\
+  map (fun p => ids (queue (c_base (snd p)))) (w_objs w) = [[]; []; [1; 2]] /\
+  map (fun p => now (c_base (snd p))) (w_objs w) = [1; 1; 0] /\
+  map (fun p => bin (c_base (snd p))) (w_objs w) = [[]; [(1, 0)]; []] /\
+  w_map w = [0; 1; 2; 3] /\
+  (* the call on a lysosome that does not exist is not a call *)
+  snd (wstep w (WOn 5 (ROp (Atomic Autophagy)))) = CBad /\
+  (* object 1 lived exactly the history addressed to it *)
+  wproj 1 world_ops = [ROp (Atomic (Ingest Misfolded 0 (Ok [1]))); ROp (Atomic (IngestSensitive (Ok [])));
+                       tick 1; ROp (Atomic (DigestOp None))] /\
+  nth_error (w_objs w) 1 = Some (rrun cfg_w (wproj 1 world_ops)).
+Proof. vm_compute. auto 20. Qed.
+
+(* the hypotheses of c13_world_every_object / c13_world_objects_independent are
+   met by it: three objects, and [world_ops] = two constructions ++ the rest *)
+Example ex_world_hyps :
+  List.length (w_objs (wrun [0; 1; 2; 3] world_ops)) = 3%nat /\
+  world_ops = (map WNew [cfg_w; cfg_w] ++ skipn 2 world_ops)%list /\
+  In (cfg_cap, snd (rrun cfg_cap (wproj 2 (skipn 8 world_ops)))) (w_objs (wrun [0; 1; 2; 3] world_ops)).
+Proof. vm_compute. auto 12. Qed.
+
+(* what run_case prints for a world: per step the row of the object the call
+   was made on, then the keys of the mapping and (queue length, total_digested,
+   on_toxic calls) of EVERY object *)
+Example ex_world_run_case :
+  nth 4 (run_case (cfg_cap, [], [], [], ([0; 1; 2; 3], world_ops))) [] =
+    [0;  1; 1; 1; 0; 0;  0; 1; 1; 0;  0; 0; 0; 0; 1;  0;  0; 4;  0; 0; 0; 0; 0;  0;  0;  1; 0;  0; 0; 0;
+     4; 0; 1; 2; 3;  2;  0; 1; 1;  0; 0; 0;  0].
+Proof. vm_compute. reflexivity. Qed.
 
 (* ---- the threshold reassigned at run time ------------------------------ *)
 
